@@ -80,6 +80,19 @@ FUNCS = [
     ("src/rdsparser.c", "rdsparser_set_text_correction", "m_set_text_correction", []),
     ("src/rdsparser.c", "rdsparser_set_text_progressive", "m_set_text_progressive", []),
     ("src/rdsparser.c", "rdsparser_set_extended_check", "m_set_extended_check", []),
+    ("src/rdsparser.c", "rdsparser_set_user_data", "m_set_user_data", []),
+    ("src/rdsparser.c", "rdsparser_register_pi", "m_register_pi", []),
+    ("src/rdsparser.c", "rdsparser_register_pty", "m_register_pty", []),
+    ("src/rdsparser.c", "rdsparser_register_tp", "m_register_tp", []),
+    ("src/rdsparser.c", "rdsparser_register_ta", "m_register_ta", []),
+    ("src/rdsparser.c", "rdsparser_register_ms", "m_register_ms", []),
+    ("src/rdsparser.c", "rdsparser_register_ecc", "m_register_ecc", []),
+    ("src/rdsparser.c", "rdsparser_register_country", "m_register_country", []),
+    ("src/rdsparser.c", "rdsparser_register_af", "m_register_af", []),
+    ("src/rdsparser.c", "rdsparser_register_ps", "m_register_ps", []),
+    ("src/rdsparser.c", "rdsparser_register_rt", "m_register_rt", []),
+    ("src/rdsparser.c", "rdsparser_register_ptyn", "m_register_ptyn", []),
+    ("src/rdsparser.c", "rdsparser_register_ct", "m_register_ct", []),
     ("src/string.c", "rdsparser_string_convert", "m_string_convert_n", ["-DRDSPARSER_DISABLE_UNICODE"]),
     ("src/string.c", "rdsparser_string_update_single", "m_update_single_n", ["-DRDSPARSER_DISABLE_UNICODE"]),
 ]
@@ -1101,6 +1114,12 @@ def translate(fn, sh):
     nstruct = sum(1 for p in params if "*" in qual(p) and p["name"] not in ARRAY_PARAMS)
     for p in params:
         name = p["name"]
+        if "(*)" in qual(p) or qual(p).replace("const ", "").strip() == "void *":
+            # a callback or the opaque user-data pointer: a token (named apart from the member it is stored in)
+            ctx.env[name] = name + "_arg"
+            sh.count[name + "_arg"] = 1
+            scal.append(name + "_arg")
+            continue
         if "*" in qual(p):
             if name in ARRAY_PARAMS:
                 ctx.arrs[name] = ["%s_%d" % (name, i) for i in range(ARRAY_PARAMS[name])]
